@@ -1,5 +1,6 @@
 import Netpoll.ShardInv.Final
 import Netpoll.ShardInv.Variant
+import Netpoll.ShardInv.CloseWaits
 /-!
 # C17 – ShardQueue executes every added writer once and flushes it
 
@@ -7,8 +8,11 @@ Property theorems over the interleaving model `Netpoll.Shard` (one model step pe
 /repo/mux/shard_queue.go; any number of concurrent `Add` and `Close` calls, any number of shards,
 any schedule).  Helper lemmas and the invariant are in `Netpoll/ShardInv/*.lean`.
 
-Contract (`InContract`): at least one shard, every `Add` carries at least one getter, fewer than
-2³¹ `Add` calls.  Outside it the code really misbehaves: see the three witnesses at the end.
+Contract (`InContract`): at least one shard (`NewShardQueue(0, …)` is a division by zero in `Add`).
+`Add()` without getters and more than 2³¹ `Add` calls are in contract (the model mirrors the repaired
+code: an empty Add returns at once, the shard index is taken from `uint32(idx)`), and `Close` is proved
+to wait for every getter added before it (`C17_close_waits`) – the four defects these clauses used to
+exclude are fixed in /repo and kept as corpus replays.
 -/
 namespace Netpoll.Props.C17
 open Netpoll.Shard
@@ -19,7 +23,7 @@ def rep (k : Nat) (a : Act) : List Act := List.replicate k a
 
 /-- two Adds on two shards while the worker is delayed, then everything runs to quiescence -/
 def demo : List Act :=
-  [.add 1, .add 2] ++ rep 11 (.adder 0) ++ rep 9 (.adder 1) ++ rep 19 (.wk false false) ++ [.tail .recheck, .tail .cas]
+  [.add 1, .add 2] ++ rep 11 (.adder 0) ++ rep 9 (.adder 1) ++ rep 19 (.wk false false) ++ [.tail .recheck]
 
 /-! ## safety -/
 
@@ -40,23 +44,25 @@ theorem C17_single_worker (n : Nat) (s : S) (h : Reachable n s) : s.clash = 0 :=
 
 /-- the shard locks and the list lock are exclusive (so "append", "swap" and "ring write" are atomic steps) -/
 theorem C17_locks_exclusive (n : Nat) (s : S) (h : Reachable n s) :
-    (∀ (sh v : Nat), s.locks[sh]? = some v → tally (aLk sh) s.adders + wLk s sh = v ∧ v ≤ 1) ∧
+    (∀ (sh v : Nat), s.locks[sh]? = some v → tally (aLk sh) s.adders + wLk s sh + cLk s sh = v ∧ v ≤ 1) ∧
     tally aLL s.adders = s.listLock ∧ s.listLock ≤ 1 := by
   have hl := (good_reachable n s h).lk
   exact ⟨fun sh v hv => ⟨(hl.l1 sh v hv).symm, hl.l3 sh v hv⟩, hl.l2.symm, hl.l4⟩
 
 /-- the ring never overwrites an unconsumed entry: at most `size` entries are unconsumed, each of
     them still sits in its slot, and an adder about to write finds a free slot -/
-theorem C17_ring_safe (n : Nat) (s : S) (h : Reachable n s) (hc : s.emptyAdds = 0) :
+theorem C17_ring_safe (n : Nat) (s : S) (h : Reachable n s) :
     s.ring.length ≤ s.size ∧
     (∀ (k x : Nat), s.ring[k]? = some x → s.list[(s.nRead + 1 + k) % s.size]? = some x) ∧
     (∀ (i : Nat) (a : Adder), s.adders[i]? = some a → a.pc = .lWrite → s.ring.length < s.size) := by
   have hG := good_reachable n s h
-  obtain ⟨hR, hP⟩ := hG.rp hc
+  have hR := hG.rg
+  have hP := hG.pd
   exact ⟨ring_len_le s hG.st hR hP, hR.r4, fun i a ha hpc => ring_len_lt s i a hG.st hR hP ha hpc⟩
 
-example : ∃ s, Reachable 2 s ∧ s.emptyAdds = 0 ∧ s.ring = [1, 0] ∧ s.invoked = [] :=
-  ⟨final 2 ([.add 1, .add 2] ++ rep 11 (.adder 0) ++ rep 9 (.adder 1)), reachable_final _ _ (by decide), by decide⟩
+/-- non-vacuity, with an `Add()` without getters in between (it returns at once and leaves no ring entry) -/
+example : ∃ s, Reachable 2 s ∧ s.ring = [1, 0] ∧ s.invoked = [] ∧ s.adders.length = 3 :=
+  ⟨final 2 ([.add 1, .add 0, .add 2] ++ rep 11 (.adder 0) ++ rep 9 (.adder 2)), reachable_final _ _ (by decide), by decide⟩
 
 /-! ## quiescence: no lost trigger, every getter invoked exactly once and flushed -/
 
@@ -65,13 +71,14 @@ example : ∃ s, Reachable 2 s ∧ s.emptyAdds = 0 ∧ s.ring = [1, 0] ∧ s.inv
 theorem C17_no_lost_trigger (n : Nat) (s : S) (h : Reachable n s) (hc : InContract s) (hq : Quiescent s) :
     s.trigger = 0 ∧ s.ring = [] ∧ (∀ (sh : Nat) (g : List Nat), s.getters[sh]? = some g → g = []) ∧
     s.wpc = .idle ∧ s.work = [] ∧
-    (∀ (i : Nat) (a : Adder), s.adders[i]? = some a → a.pc = .done ∨ a.pc = .panicked) := by
+    (∀ (i : Nat) (a : Adder), s.adders[i]? = some a → a.pc = .done) ∧ s.cCas = 0 ∧ s.cwin = none := by
   have hG := good_reachable n s h
   obtain ⟨ht, hw, hA⟩ := quiescent_settled s hG hc (quiescentQ_of_quiescent s hq)
-  have hall : ∀ (i : Nat) (a : Adder), s.adders[i]? = some a → a.pc = .state ∨ a.pc = .done ∨ a.pc = .panicked :=
+  have hall : ∀ (i : Nat) (a : Adder), s.adders[i]? = some a → a.pc = .state ∨ a.pc = .done :=
     fun i a ha => Or.inr (hA i a ha)
-  obtain ⟨h1, h2, h3, _⟩ := idle_all_handled s hG hc.2.1 ht hall
-  exact ⟨ht, h1, h2, hw, h3, hA⟩
+  obtain ⟨h1, h2, h3, _⟩ := idle_all_handled s hG ht hall
+  obtain ⟨hc1, hc2⟩ := quiescent_closers s hG hc hq
+  exact ⟨ht, h1, h2, hw, h3, hA, hc1, hc2⟩
 
 /-- **exactly once, and flushed**: at quiescence of an in-contract execution whose connection is
     still alive, every getter that was not ignored (its Add saw the queue closing/closed) has been
@@ -84,21 +91,20 @@ theorem C17_exactly_once_flushed (n : Nat) (s : S) (h : Reachable n s) (hc : InC
      s.ignored.count id = 0 ∧ s.invoked.count id = 1 ∧ s.notApp.count id + s.sent.count id = 1) := by
   have hG := good_reachable n s h
   obtain ⟨ht, hw, hA⟩ := quiescent_settled s hG hc (quiescentQ_of_quiescent s hq)
-  have hall : ∀ (i : Nat) (a : Adder), s.adders[i]? = some a → a.pc = .state ∨ a.pc = .done ∨ a.pc = .panicked :=
+  have hall : ∀ (i : Nat) (a : Adder), s.adders[i]? = some a → a.pc = .state ∨ a.pc = .done :=
     fun i a ha => Or.inr (hA i a ha)
-  obtain ⟨_, _, _, h4⟩ := idle_all_handled s hG hc.2.1 ht hall
+  obtain ⟨_, _, _, h4⟩ := idle_all_handled s hG ht hall
   have hi := h4 id
   have hg : tally (aGts id) s.adders = 0 :=
-    tally_eq_zero _ (fun i a ha => by rcases hA i a ha with h | h <;> simp [aGts, aPre, h])
+    tally_eq_zero _ (fun i a ha => by simp [aGts, aPre, hA i a ha])
   have hsk := hG.ms.m1 hal
-  have hlost := (hG.ms.m2 hc.2.2).1
   have hwb : s.wbuf = [] := by
     apply Classical.byContradiction
     intro hne
     have := hG.ids.i3 hal hne
     simp [hw] at this
   have hi2 := hG.ids.i2 id
-  rw [hg, hsk, hlost] at hi
+  rw [hg, hsk] at hi
   rw [hwb] at hi2
   simp [hid] at hi hi2
   refine ⟨hwb, ?_⟩
@@ -111,14 +117,13 @@ theorem C17_quiescent_accounted (n : Nat) (s : S) (h : Reachable n s) (hc : InCo
     s.ignored.count id + s.skipped.count id + s.invoked.count id = 1 := by
   have hG := good_reachable n s h
   obtain ⟨ht, hw, hA⟩ := quiescent_settled s hG hc (quiescentQ_of_quiescent s hq)
-  have hall : ∀ (i : Nat) (a : Adder), s.adders[i]? = some a → a.pc = .state ∨ a.pc = .done ∨ a.pc = .panicked :=
+  have hall : ∀ (i : Nat) (a : Adder), s.adders[i]? = some a → a.pc = .state ∨ a.pc = .done :=
     fun i a ha => Or.inr (hA i a ha)
-  obtain ⟨_, _, _, h4⟩ := idle_all_handled s hG hc.2.1 ht hall
+  obtain ⟨_, _, _, h4⟩ := idle_all_handled s hG ht hall
   have hi := h4 id
   have hg : tally (aGts id) s.adders = 0 :=
-    tally_eq_zero _ (fun i a ha => by rcases hA i a ha with h | h <;> simp [aGts, aPre, h])
-  have hlost := (hG.ms.m2 hc.2.2).1
-  rw [hg, hlost] at hi
+    tally_eq_zero _ (fun i a ha => by simp [aGts, aPre, hA i a ha])
+  rw [hg] at hi
   simp [hid] at hi
   omega
 
@@ -133,6 +138,19 @@ example : ∃ s, Reachable 2 s ∧ InContract s ∧ Quiescent s ∧ s.alive = tr
     s.invoked = [0, 1, 2] ∧ s.sent = [0, 1, 2] ∧ s.trigger = 0 := by
   refine ⟨final 2 demo, reachable_final _ _ (by decide), by decide, ?_, by decide⟩
   exact quiescent_of_settled _ (by decide) (by decide) (by decide)
+
+/-- … and by one that crosses the `int32` wrap of `idx`, with an `Add()` without getters in between: the queue
+    starts 2 increments below 2³¹ (a state that takes 2³¹−2 earlier Adds to reach), three Adds carry getters;
+    the shard index stays in range (1, 0, 1) and all three getters are invoked and flushed -/
+example :
+    let s₀ : S := { init 2 with idx := 2147483646 }
+    let r := run s₀ ([.add 1, .add 0, .add 1, .add 1] ++ rep 11 (.adder 0) ++ rep 9 (.adder 2) ++ rep 5 (.adder 3) ++
+                     rep 19 (.wk false false) ++ [.tail .recheck])
+    let s := r.getD s₀
+    r.isSome = true ∧ s.idx = 2147483649 ∧ wrap32 s.idx = -2147483647 ∧ s.adders.map (·.shard) = [1, 0, 0, 1] ∧
+    s.adders.all (fun a => decide (a.pc = .done)) = true ∧ s.invoked = [0, 2, 1] ∧ s.sent = [0, 2, 1] ∧
+    s.trigger = 0 ∧ s.getters = [[], []] := by
+  decide
 
 /-! ## termination under fairness: a variant, and no deadlock -/
 
@@ -155,23 +173,33 @@ theorem C17_variant (n : Nat) (s s' : S) (a : Act) (h : Reachable n s) (hq : a.i
     Add / worker steps can happen, whatever the schedule -/
 theorem C17_variant_wf : WellFounded mLt := mLt_wf
 
-/-- Close calls never change the variant, and once `trigger = 0` each of their steps decreases `mD`
-    (so a polling Close finishes after at most three more steps) -/
-theorem C17_closer_variant (s s' : S) (pc : CPc) (hs : step s (.closer pc) = some s') :
-    mA s' = mA s ∧ mB s' = mB s ∧ mC s' = mC s ∧ (s.trigger = 0 → mD s' < mD s) :=
-  variant_closer s s' pc hs
+/-- Close calls never change the variant, and once the queue is drained (every shard empty, `trigger = 0`)
+    each of their steps decreases the well-founded measure `cLt` (calls before their CAS, remaining steps of the
+    call that won it): a polling Close then returns after at most one more pass over the shards -/
+theorem C17_closer_variant (n : Nat) (s s' : S) (pc : CPc) (h : Reachable n s) (hs : step s (.closer pc) = some s') :
+    mA s' = mA s ∧ mB s' = mB s ∧ mC s' = mC s ∧
+    ((s.trigger = 0 ∧ ∀ (sh : Nat) (g : List Nat), s.getters[sh]? = some g → g = []) → cLt s' s) :=
+  variant_closer s s' pc (good_reachable n s h).st hs
+
+theorem C17_closer_variant_wf : WellFounded cLt := cLt_wf
 
 /-- **no deadlock**: in an in-contract execution, as long as an Add call, the loop worker or a tail worker
-    is in flight, one of them can take a step; and when none can, `trigger = 0` – so under a fair
-    scheduler (every enabled actor eventually moves) and finitely many Add calls the queue reaches the
-    state of `C17_no_lost_trigger`, and polling Close calls then return by `C17_closer_variant`. -/
+    is in flight, one of them – or the Close call that holds a shard lock inside `drained`, which is never
+    blocked there – can take a step; and when none can, `trigger = 0`, every shard is empty and no lock is held –
+    so under a fair scheduler (every enabled actor eventually moves) and finitely many Add calls the queue
+    reaches the state of `C17_no_lost_trigger`, and polling Close calls then return by `C17_closer_variant`. -/
 theorem C17_no_deadlock (n : Nat) (s : S) (h : Reachable n s) (hc : InContract s) (hq : QuiescentQ s) :
-    s.trigger = 0 ∧ s.wpc = .idle ∧ s.tRecheck + s.tRun + s.tSpawn + s.tCas = 0 ∧
-    (∀ (i : Nat) (a : Adder), s.adders[i]? = some a → a.pc = .done ∨ a.pc = .panicked) := by
+    s.trigger = 0 ∧ s.wpc = .idle ∧ s.tRecheck + s.tRun + s.tSpawn = 0 ∧
+    (∀ (i : Nat) (a : Adder), s.adders[i]? = some a → a.pc = .done) ∧
+    (∀ (sh : Nat) (g : List Nat), s.getters[sh]? = some g → g = []) ∧
+    (∀ (sh v : Nat), s.locks[sh]? = some v → v = 0) := by
   have hG := good_reachable n s h
   obtain ⟨ht, hw, hA⟩ := quiescent_settled s hG hc hq
-  obtain ⟨c1, c2, c3, c4⟩ := quiescent_tails s hq
-  exact ⟨ht, hw, by omega, hA⟩
+  obtain ⟨c1, c2, c3⟩ := quiescent_tails s hq
+  have hall : ∀ (i : Nat) (a : Adder), s.adders[i]? = some a → a.pc = .state ∨ a.pc = .done :=
+    fun i a ha => Or.inr (hA i a ha)
+  obtain ⟨_, h2, _, _⟩ := idle_all_handled s hG ht hall
+  exact ⟨ht, hw, by omega, hA, h2, fun sh v hv => lock_free_of_quiescent s hG hc hq sh v hv⟩
 
 /-- non-vacuity: a reachable state in which the worker is about to start on two ring entries and three getters -/
 example : ∃ s, Reachable 2 s ∧ (step s (.wk false false)).isSome = true ∧ mA s = 0 ∧ mB s = 0 ∧ mC s = 26 :=
@@ -182,25 +210,20 @@ example : ∃ s, Reachable 2 s ∧ (step s (.wk false false)).isSome = true ∧ 
 set_option linter.unusedSimpArgs false in
 /-- the state word never returns to `active` -/
 theorem C17_close_is_final (s s' : S) (a : Act) (hs : step s a = some s') (h : s.state ≠ active) :
-    s'.state ≠ active := by
-  cases a with
-  | add n => simp only [step] at hs; cases hs; exact h
-  | close => simp only [step] at hs; cases hs; exact h
-  | die => simp only [step] at hs; cases hs; exact h
-  | adder i =>
-    simp only [step, stepAdder] at hs
-    (repeat' split at hs) <;> (try cases hs) <;> simp_all [setAdder, spawnWorker]
-  | wk n e =>
-    simp only [step, stepWorker] at hs
-    (repeat' split at hs) <;> (try cases hs) <;> simp_all [endDeal]
-  | tail pc =>
-    cases pc <;> simp only [step, stepTail] at hs <;>
-    (repeat' split at hs) <;> (try cases hs) <;> simp_all [spawnWorker, active, closed,
-      Netpoll.Gen.c_mux_active, Netpoll.Gen.c_mux_closed]
-  | closer pc =>
-    cases pc <;> simp only [step, stepCloser] at hs <;>
-    (repeat' split at hs) <;> (try cases hs) <;> simp_all [active, closing, closed,
-      Netpoll.Gen.c_mux_active, Netpoll.Gen.c_mux_closing, Netpoll.Gen.c_mux_closed]
+    s'.state ≠ active :=
+  (snap_stable_step s s' a hs h).2
+
+/-- at most one `Close` call is past its CAS: while the queue is active none is, and the CAS only succeeds
+    on an active queue (so the model's single slot `cwin` for the call inside `drained` loses nothing) -/
+theorem C17_single_closer (n : Nat) (s : S) (h : Reachable n s) :
+    (s.state = active → s.cwin = none ∧ s.closeOk = 0) ∧ (0 < s.closeOk → s.cwin = none) ∧
+    (∀ s', step s (.closer .cas) = some s' → s.cwin ≠ none → s'.cwin = s.cwin ∧ s'.closeErr = s.closeErr + 1) := by
+  have hG := good_reachable n s h
+  refine ⟨fun ha => ⟨(hG.ms.m3 ha).2.2.1, (hG.ms.m3 ha).2.1⟩, hG.cl.c4, ?_⟩
+  intro s' hs hne
+  have hna : s.state ≠ active := fun ha => hne (hG.ms.m3 ha).2.2.1
+  simp only [step, stepCloser] at hs
+  (repeat' split at hs) <;> (try cases hs) <;> simp_all
 
 /-- **Adds after Close are ignored**: an Add whose state check comes after a Close's CAS returns at
     once; its getters go nowhere but the ghost `ignored` list and no shared word changes -/
@@ -225,88 +248,82 @@ theorem C17_ignored_never_invoked (n : Nat) (s : S) (h : Reachable n s) (id : Na
 example : ∃ s, Reachable 1 s ∧ s.state ≠ active ∧ (step s (.adder 0)).map (·.ignored) = some [0, 1] :=
   ⟨final 1 [.add 2, .close, .closer .cas], reachable_final _ _ (by decide), by decide⟩
 
-/-- a `Close` leaves its wait loop through the store only after loading `trigger = 0`, and returns nil
-    on the other path only after loading `state = closed` -/
-theorem C17_close_returns_on_zero (s s' : S) (pc : CPc) (hs : step s (.closer pc) = some s')
-    (hret : s'.closeOk = s.closeOk + 1 ∨ s'.cStore = s.cStore + 1) :
-    (pc = .trig ∧ s.trigger = 0) ∨ (pc = .state ∧ s.state = closed) ∨ pc = .store := by
-  cases pc <;> simp only [step, stepCloser] at hs <;> (repeat' split at hs) <;> (try cases hs) <;> simp_all <;> omega
+/-- a `Close` returns nil only through its store, which it reaches only from the load of `trigger = 0`, which it
+    reaches only after a pass over all shards in which every one was found empty under its lock -/
+theorem C17_close_returns_on_drained (s s' : S) (pc : CPc) (hs : step s (.closer pc) = some s') :
+    (s'.closeOk = s.closeOk + 1 → pc = .store ∧ s.cwin = some .store) ∧
+    (s'.cwin = some .store → s.cwin ≠ some .store → pc = .trig ∧ s.trigger = 0) ∧
+    (s'.cwin = some .trig → s.cwin ≠ some .trig → (pc = .unlock ∧ s.cN = 0 ∧ s.size ≤ s.cShard + 1) ∨ s.size = 0) ∧
+    (s'.cwin = some .lock → s'.cShard = s.cShard + 1 → pc = .unlock ∧ s.cN = 0) := by
+  cases pc <;> simp only [step, stepCloser] at hs <;> (repeat' split at hs) <;> (try cases hs) <;>
+    simp_all [enterDrained] <;> (try split) <;> simp_all <;> omega
 
-/-- **Close waits (partial)**: at an instant where `trigger = 0` – what `Close` (or the worker's
-    exit check, which stores `closed`) observes – and no Add call is between its state check and its
-    return, the ring and all shards are empty and every getter is accounted for outside the queue:
-    ignored, invoked, dropped for a dead connection, or still with an Add that has not checked the
-    state yet.  PARTIAL: it is about the instant of the observation, not about the return of `Close`:
-    needs "no Add in flight" (see `C17_close_early_witness`), the worker's observation may be stale by
-    the time it stores `closed` (see `C17_close_stale_exit_witness`), and it says "invoked", not
-    "flushed" – the worker's flush may come after `Close` has returned. -/
-theorem C17_close_waits_partial (n : Nat) (s : S) (h : Reachable n s) (hc : s.emptyAdds = 0) (ht : s.trigger = 0)
-    (hall : ∀ (i : Nat) (a : Adder), s.adders[i]? = some a → a.pc = .state ∨ a.pc = .done ∨ a.pc = .panicked) :
-    s.ring = [] ∧ (∀ (sh : Nat) (g : List Nat), s.getters[sh]? = some g → g = []) ∧ s.work = [] ∧
-    (∀ id : Nat, id < s.nextId → tally (aGts id) s.adders + s.ignored.count id + s.lost.count id +
-        s.skipped.count id + s.invoked.count id = 1) := by
-  obtain ⟨h1, h2, h3, h4⟩ := idle_all_handled s (good_reachable n s h) hc ht hall
-  refine ⟨h1, h2, h3, fun id hid => ?_⟩
-  have := h4 id
-  simpa [hid] using this
+/-- **Close waits**: when a `Close` call returns nil (`closeOk > 0` – only the call whose CAS won can), every
+    getter that was queued at its CAS – in a shard, swapped out, or in the worker's hands, whether the Add
+    that appended it had returned or not – has been invoked or was dropped by `deal` because the connection
+    was not active.  `s₁` is the state at the CAS, `s₂` any later state. -/
+theorem C17_close_waits_queued (n : Nat) (acts₁ acts₂ : List Act) (s₁ s₁' s₂ : S)
+    (h₁ : run (init n) acts₁ = some s₁) (hwin : s₁.state = active) (hcas : step s₁ (.closer .cas) = some s₁')
+    (h₂ : run s₁' acts₂ = some s₂) (hret : 0 < s₂.closeOk) (id : Nat) (hid : id ∈ queued s₁) :
+    id ∈ s₂.invoked ∨ id ∈ s₂.skipped := by
+  obtain ⟨c1, c2, _, _⟩ := cas_snapshot s₁ s₁' hcas hwin
+  have hsnap := snap_stable_run acts₂ s₁' s₂ h₂ c2
+  have hG₂ : Good s₂ := good_run acts₂ s₁' s₂ (good_step s₁ s₁' _ (good_reachable n s₁ ⟨acts₁, h₁⟩) hcas) h₂
+  have := snap_handled s₂ hG₂ hret id (by rw [hsnap, c1]; exact hid)
+  by_cases hi : 0 < s₂.invoked.count id
+  · exact Or.inl (List.count_pos_iff.mp hi)
+  · exact Or.inr (List.count_pos_iff.mp (by omega))
 
-/-- non-vacuity: Close observing `trigger = 0` after a completed Add whose getter has been invoked -/
-example : ∃ s, Reachable 1 s ∧ s.emptyAdds = 0 ∧ s.trigger = 0 ∧ s.cTrig = 1 ∧ s.invoked = [0] ∧
-    s.adders.all (fun a => decide (a.pc = .done)) = true :=
-  ⟨final 1 ([.add 1, .close] ++ rep 11 (.adder 0) ++ rep 9 (.wk false false) ++ [.closer .cas, .closer .state]),
-    reachable_final _ _ (by decide), by decide⟩
+/-- **Close waits for every Add that returned before it**: if an `Add` call has returned (`pc = done`) by the
+    time a `Close` call does its winning CAS (in particular if it returned before `Close` was called), then
+    when that `Close` returns nil every getter of the Add has been invoked – or dropped because the connection
+    was not active – whatever other Add calls were in flight and whatever the schedule.  The unrepaired code
+    violated this in two ways (an Add preempted between its unlock and its trigger; a worker's stale
+    `CAS(closing → closed)`): corpus/C17/close-early-inflight.sched, close-early-stale.sched. -/
+theorem C17_close_waits (n : Nat) (acts₁ acts₂ : List Act) (s₁ s₁' s₂ : S)
+    (h₁ : run (init n) acts₁ = some s₁) (hwin : s₁.state = active) (hcas : step s₁ (.closer .cas) = some s₁')
+    (h₂ : run s₁' acts₂ = some s₂) (hret : 0 < s₂.closeOk)
+    (i : Nat) (a : Adder) (ha : s₁.adders[i]? = some a) (hdone : a.pc = .done) (id : Nat) (hid : id ∈ a.gts) :
+    id ∈ s₂.invoked ∨ id ∈ s₂.skipped := by
+  have hq := done_queued_or_handled n s₁ ⟨acts₁, h₁⟩ hwin i a ha hdone id hid
+  by_cases hh : s₁.invoked.count id + s₁.skipped.count id = 0
+  · exact C17_close_waits_queued n acts₁ acts₂ s₁ s₁' s₂ h₁ hwin hcas h₂ hret id (mem_queued_of_qh s₁ id hq hh)
+  · -- already handled at the CAS: handled stays handled
+    obtain ⟨_, _, c3, c4⟩ := cas_snapshot s₁ s₁' hcas hwin
+    have hm := handled_mono_run acts₂ id s₁' s₂ h₂
+    rw [c3, c4] at hm
+    by_cases hi : 0 < s₂.invoked.count id
+    · exact Or.inl (List.count_pos_iff.mp hi)
+    · exact Or.inr (List.count_pos_iff.mp (by omega))
 
-/-! ## witnesses: where the unchanged code violates the property -/
+/-- … so with a live connection every such getter has been invoked when `Close` returns nil -/
+theorem C17_close_waits_alive (n : Nat) (acts₁ acts₂ : List Act) (s₁ s₁' s₂ : S)
+    (h₁ : run (init n) acts₁ = some s₁) (hwin : s₁.state = active) (hcas : step s₁ (.closer .cas) = some s₁')
+    (h₂ : run s₁' acts₂ = some s₂) (hret : 0 < s₂.closeOk) (hal : s₂.alive = true)
+    (i : Nat) (a : Adder) (ha : s₁.adders[i]? = some a) (hdone : a.pc = .done) (id : Nat) (hid : id ∈ a.gts) :
+    id ∈ s₂.invoked := by
+  have hG₂ : Good s₂ := good_run acts₂ s₁' s₂ (good_step s₁ s₁' _ (good_reachable n s₁ ⟨acts₁, h₁⟩) hcas) h₂
+  rcases C17_close_waits n acts₁ acts₂ s₁ s₁' s₂ h₁ hwin hcas h₂ hret i a ha hdone id hid with h | h
+  · exact h
+  · rw [hG₂.ms.m1 hal] at h; cases h
 
-def closeEarly : List Act :=
-  [.add 1, .add 1, .close] ++ rep 5 (.adder 0) ++ rep 5 (.adder 1) ++
-  [.closer .cas, .closer .state, .closer .trig, .closer .store]
+def closeInflight₁ : List Act := [.add 1, .add 1, .close] ++ rep 5 (.adder 0) ++ rep 5 (.adder 1)
+def closeInflight₂ : List Act :=
+  [.closer .lock, .closer .read, .closer .unlock] ++ rep 6 (.adder 0) ++ rep 12 (.wk false false) ++
+  [.closer .lock, .closer .read, .closer .unlock, .closer .trig, .closer .store]
 
-/-- **Close returns early** (in contract): Add A0 has made the only shard non-empty and is preempted
-    before `triggering`; Add A1 appends to the same shard and returns; `Close` sees `trigger = 0`,
-    stores `closed` and returns nil – while A1's getter (added by a call that returned before `Close`
-    was even called) has not been invoked.  It is invoked later, when A0 resumes. -/
-theorem C17_close_early_witness :
-    ∃ s, Reachable 1 s ∧ InContract s ∧ s.closeOk = 1 ∧ s.state = closed ∧
-      s.adders[1]? = some { pc := .done, gts := [1], shard := 0, wasEmpty := false } ∧
-      s.getters = [[0, 1]] ∧ s.invoked = [] :=
-  ⟨final 1 closeEarly, reachable_final _ _ (by decide), by decide⟩
-
-def closeStale : List Act :=
-  [.add 1, .add 1, .close] ++ rep 11 (.adder 0) ++ rep 11 (.wk false false) ++ [.tail .recheck] ++
-  rep 11 (.adder 1) ++ [.closer .cas, .closer .state, .closer .trig, .tail .cas, .closer .state]
-
-/-- **Close returns early, no Add in flight** (in contract): a worker has passed its exit check
-    (`trigger = 0`) and is preempted before its `CAS(closing → closed)`; a second Add runs to completion
-    (its getter is in the shard, `trigger = 1`, a new worker is spawned but has not run); `Close` sets
-    `closing` and waits; the old worker's stale CAS now stores `closed`; `Close` loads `closed` and
-    returns nil with `trigger = 1` and the getter not invoked.  (It is invoked later by the new worker.) -/
-theorem C17_close_stale_exit_witness :
-    ∃ s, Reachable 1 s ∧ InContract s ∧ s.closeOk = 1 ∧ s.state = closed ∧ s.trigger = 1 ∧
-      s.adders.all (fun a => decide (a.pc = .done)) = true ∧ s.getters = [[1]] ∧ s.invoked = [0] :=
-  ⟨final 1 closeStale, reachable_final _ _ (by decide), by decide⟩
-
-def emptyAdd : List Act :=
-  [.add 1, .add 0, .add 1, .add 0] ++ rep 11 (.adder 0) ++ rep 9 (.adder 1) ++ rep 5 (.adder 2) ++
-  rep 9 (.adder 3) ++ rep 22 (.wk false false) ++ [.tail .recheck, .tail .cas]
-
-/-- **`Add()` without getters can strand a shard** (out of contract: `emptyAdds > 0`): an empty Add
-    "triggers" every time it finds its shard empty; two of them while the worker is delayed wrap the
-    ring over the entry of shard 1, the worker swaps shard 0 three times, and the system is quiescent,
-    active and alive with getters 0 and 1 never invoked.  Shard 1 stays non-empty, so no later Add to
-    it triggers either. -/
-theorem C17_empty_add_witness :
-    ∃ s, Reachable 2 s ∧ Quiescent s ∧ s.alive = true ∧ s.state = active ∧ s.idx = 4 ∧ s.emptyAdds = 2 ∧
-      s.trigger = 0 ∧ s.getters = [[], [0, 1]] ∧ s.invoked = [] := by
-  refine ⟨final 2 emptyAdd, reachable_final _ _ (by decide), ?_, by decide⟩
-  exact quiescent_of_settled _ (by decide) (by decide) (by decide)
-
-/-- **`idx` wraps** (out of contract: more than 2³¹ Adds): `q.idx` is an `int32`; with 2 shards the Add
-    that increments it to −2³¹+1 computes `% 2 = −1` and panics indexing `q.locks` – its getters are lost.
-    (Stated for the step, from a state with that counter value; reaching it takes 2³¹ Adds.) -/
-theorem C17_idx_wrap_witness :
-    (stepAdder { init 2 with idx := 2147483648, nextId := 1, adders := [{ pc := .idx, gts := [0] }] } 0).map
-      (fun s => (s.adders.map (·.pc), s.lost, s.panics)) = some ([.panicked], [0], 1) := by
+/-- non-vacuity, on the history that used to fail (close-early-inflight): one shard; Add A0 appends and is preempted
+    before `triggering`; Add A1 appends to the same shard and returns (state `s₁`, `trigger = 0`); `Close` does its
+    CAS (snapshot = both getters), finds the shard non-empty and starts over; A0 resumes, the worker deals with both
+    getters; the next pass of `drained` finds the shard empty and `trigger = 0`; `Close` returns nil (state `s₂`)
+    with both getters invoked. -/
+example :
+    let s₁ := final 1 closeInflight₁
+    let s₂ := final 1 (closeInflight₁ ++ [.closer .cas] ++ closeInflight₂)
+    (run (init 1) (closeInflight₁ ++ [.closer .cas] ++ closeInflight₂)).isSome = true ∧
+    s₁.state = active ∧ s₁.adders[1]? = some { pc := .done, gts := [1], shard := 0, wasEmpty := false } ∧
+    s₁.trigger = 0 ∧ queued s₁ = [0, 1] ∧ s₁.invoked = [] ∧
+    0 < s₂.closeOk ∧ s₂.invoked = [0, 1] ∧ s₂.state = closed ∧ s₂.closeSnap = [0, 1] := by
   decide
 
 end Netpoll.Props.C17
